@@ -22,6 +22,7 @@ class Run:
         self.t0 = time.time()
         self.violations = []      # (replay_path, no_input)
         self.known = []
+        self._known_counts = {}
         self.coverage = {"evaluations": 0, "distinct_nontrivial": 0, "rule": "", "samples": [],
                          "obligations": 0, "discharged": 0, "checker_cmd": "", "trusted_base": [KERNEL]}
         self.assumptions = []
@@ -47,9 +48,10 @@ class Run:
         print("VIOLATION property=%s replay=%s%s" % (self.prop, path, " no-failing-input-found" if no_input else ""),
               flush=True)
 
-    def known_finding(self, what):
-        self.known.append(what)
-        print("KNOWN-FINDING: property=%s %s" % (self.prop, what), flush=True)
+    def known_finding(self, what, n=1):
+        """Record n occurrences of a finding listed in known_findings.json; one KNOWN-FINDING line per
+        finding is printed by finish()."""
+        self._known_counts[what] = self._known_counts.get(what, 0) + n
 
     def proofs(self, res):
         """Record the result of proofs.check_property; report if broken."""
@@ -67,6 +69,9 @@ class Run:
         return res["ok"]
 
     def finish(self):
+        for what, n in self._known_counts.items():
+            self.known.append("%s [%d case(s) in this run]" % (what, n))
+            print("KNOWN-FINDING: property=%s %s [%d case(s) in this run]" % (self.prop, what, n), flush=True)
         c = self.coverage
         ev = {"property_id": self.prop, "tier": self.tier, "seed": self.seed, "level": "proof",
               "coverage": c, "assumptions": self.assumptions, "wall_s": round(time.time() - self.t0, 2),
